@@ -4,7 +4,7 @@ package life
 type PeerSpec struct {
 	Kind  string `json:"kind"`  // "client" (gortsplib Client) | "raw" (hand-written RTSP over a TCP socket)
 	Mode  string `json:"mode"`  // "play" | "record"   (client);  raw: "silent" | "partial" | "garbage" | "stall"
-	Proto string `json:"proto"` // "udp" | "tcp"
+	Proto string `json:"proto"` // "udp" | "tcp" | "mcast" (UDP multicast, play only)
 	Park  int    `json:"park"`  // protocol step after which this peer waits for the Close (see steps)
 }
 
@@ -62,6 +62,7 @@ type Outcome struct {
 	LeftFinal  []string       `json:"left_final"`            // library goroutines after everything was closed
 	FdFinal    []string       `json:"fd_final"`              // descriptors that were not there before the scenario
 	StreamLate []string       `json:"stream_late,omitempty"` // target stream: reader sessions not closed in time
+	StreamLeft []string       `json:"stream_left,omitempty"` // target stream: multicast listener goroutines left after ServerStream.Close
 	Panic      string         `json:"panic,omitempty"`
 	SetupErr   string         `json:"setup_err,omitempty"` // the scenario could not be set up (not a verdict)
 	Reached    int            `json:"reached"`             // last protocol step peer 0 completed before the Close
